@@ -91,6 +91,7 @@ type stEnv struct {
 	mapCols string
 	others  []string // the other tables
 	faults  bool
+	probe   stGRPCProbe
 }
 
 type stV struct {
